@@ -50,12 +50,11 @@ Post(p) ==
 TraceInit ==
     /\ tid \in 1..NTraces
     /\ l = 2
-    /\ Init
     /\ Len(Tr) >= 1 /\ Tr[1].e = "Config"
-    /\ \A h \in Hosts : pool[h] = Tr[1].pool[h]
-    /\ idem = Tr[1].idem
-    /\ specLeft = Tr[1].spec
-    /\ target = Tr[1].target
+    /\ Len(Tr[1].pool) = NHosts
+    /\ \A h \in Hosts : Tr[1].pool[h] \in PoolConds \cup {"healthy"}
+    /\ Tr[1].idem \in IdemChoices /\ Tr[1].target \in TargetChoices /\ Tr[1].spec \in SpecChoices
+    /\ InitWith([h \in Hosts |-> Tr[1].pool[h]], Tr[1].idem, Tr[1].target, Tr[1].spec)
 
 TraceNext ==
     /\ l <= Len(Tr)
